@@ -136,6 +136,13 @@ def d1b(chk, prog):
     tb.done("with the threshold method cn is not the threshold step of the (purity-rescaled) log2 under the caller's thresholds")
 
 
+def _pos_frac(name):
+    """a BAF strictly inside (0, 1)"""
+    t = Term.sym(name, 0.0, 1.0, positive=True)
+    t.lo = 1e-9
+    return t
+
+
 def d2(chk, prog):
     chk.clause("D2", "allelic split: cn1 + cn2 == cn, 0 <= cn1 <= cn, NaN exactly where BAF missing and cn > 0")
     fi = prog.fn("cnvlib.call.do_call")
@@ -145,7 +152,8 @@ def d2(chk, prog):
         it = Interp(prog)
         thr = [OrderVal(f"t{i}", 10 * i, None) for i in range(3)]
         # rows: log2 at position <t0 (cn 0), (t0,t1) (cn 1), (t1,t2) (cn 2)  x  baf in {nan, symbolic}
-        classes = [(j, b) for j in (0, 2, 4) for b in ("nan", "val")]
+        # (a BAF of exactly 0 -- or 1 -- is a value, not a missing one: cn1 = cn, cn2 = 0)
+        classes = [(j, b) for j in (0, 2, 4) for b in ("nan", "val", "zero", "one")]
         rows = []
         if method == "clonal":
             # cn = round(P*2^v) is >= 0 with unknown sign: the sign of cn is an atom valued per class (j == 0: cn == 0)
@@ -166,9 +174,9 @@ def d2(chk, prog):
             else:
                 lg = Term.sym(f"v{i}")
             rows.append({"chromosome": "chr1", "start": Term.sym("s"), "end": Term.sym("e"), "gene": "g", "log2": lg,
-                         "baf": OrderVal(f"b{i}", None, None, nan=True) if b == "nan" else Term.sym(f"b{i}", 0.0, 1.0)})
+                         "baf": OrderVal(f"b{i}", None, None, nan=True) if b == "nan" else Fr(0) if b == "zero" else Fr(1) if b == "one" else _pos_frac(f"b{i}")})
         # row labels repeat, as in per-chromosome pieces glued together without renumbering
-        g = make_ga("CopyNumArray", rows, {"sample_id": "S"}, index="any", labels=[0, 1, 2, 0, 1, 2])
+        g = make_ga("CopyNumArray", rows, {"sample_id": "S"}, index="any", labels=[0, 1, 2, 3] * 3)
         try:
             out = tb.guard(lambda: it.run(fi.qn, [g, None, method, P, None, False, False, None, None, thr]), f"method={method}")
         finally:
